@@ -10,6 +10,8 @@ package raft
 // after the rename but before the reply.
 
 import (
+	"time"
+	"net"
 	"errors"
 	"fmt"
 	"hash/fnv"
@@ -55,6 +57,14 @@ func (m *voteModel) noteDisk(dir string) *voteFail {
 	}
 	m.diskTerm, m.diskVote = t, v
 	return nil
+}
+
+func (m *voteModel) diskTermNow(dir string) uint64 {
+	t, _, err := readTermFile(dir)
+	if err != nil {
+		return 0
+	}
+	return t
 }
 
 func (m *voteModel) clone() *voteModel {
@@ -325,7 +335,20 @@ func voteProp(rt *rapid.T, agg *aggStats) {
 			// what startElection persists before asking for votes
 			v.r.leader = 0
 			v.r.state = Candidate
-			v.r.setVotedFor(v.r.term+1, self)
+			// the real startElection (nobody can be reached: its vote requests fail to dial)
+			if v.r.configs.Latest.isVoter(self) {
+				v.r.dialFn = func(network, address string, timeout time.Duration) (net.Conn, error) {
+					return nil, errors.New("verif: unreachable")
+				}
+				cand := &candidate{Raft: v.r}
+				cand.startElection()
+				classes["real-startElection"] = true
+			} else {
+				v.r.setVotedFor(v.r.term+1, self)
+			}
+			if v.r.term != m.diskTermNow(dir) {
+				voteFailf(rt, trace, "selfvote-not-durable", "candidate of term %d, but the term file holds term %d", v.r.term, m.diskTermNow(dir))
+			}
 			trace = append(trace, fmt.Sprintf("selfvote term=%d", v.r.term))
 			if f := m.noteDisk(dir); f != nil {
 				voteFailf(rt, trace, f.key, "%s", f.msg)
